@@ -4,7 +4,7 @@
    pre-order walk of the trie (HttpRouterIter) after the visibility filter;
    [undoc t] is the template as the document shows it (a wildcard appears as
    {name}). *)
-From DS Require Import Base Versions VersionsProofs Router RouterSpec RouterProofs OpenApiGen OpenApiGenProofs RefClosure.
+From DS Require Import Base Versions VersionsProofs Router RouterSpec RouterProofs OpenApiGen OpenApiGenProofs OpenApiOrder RefClosure.
 From Coq Require Import Permutation.
 
 Section C06.
@@ -44,6 +44,16 @@ Section C06.
     Permutation eps eps' -> build V cmp eps = Ok r -> build V cmp eps' = Ok r' ->
     (In x (doc_ops V cmp r v) <-> In x (doc_ops V cmp r' v)).
   Proof. exact (doc_ops_order_irrelevant V cmp). Qed.
+
+  (* ... nor does their order: the walk of the trie is strictly sorted (own
+     handlers before children, children and methods by key, at most one handler
+     per method at a version), so the LIST of operations is the same whatever
+     order the endpoints were registered in *)
+  Theorem C06_doc_list_order_irrelevant : forall (eps eps' : list (decl V)) r r' v,
+    Permutation eps eps' -> build V cmp eps = Ok r -> build V cmp eps' = Ok r' ->
+    (forall d, In d eps -> wf_range V cmp (e_versions (snd d))) ->
+    doc_ops V cmp r v = doc_ops V cmp r' v.
+  Proof. exact (doc_ops_list_order_irrelevant V cmp bot TO). Qed.
 
   (* 4. what the document shows at v is what the router serves at v *)
   Theorem C06_documented_is_served : forall (eps : list (decl V)) r v t' m e,
@@ -92,6 +102,7 @@ Print Assumptions C06_doc_exact.
 Print Assumptions C06_doc_unique.
 Print Assumptions C06_unpublished_omitted_yet_served.
 Print Assumptions C06_doc_order_irrelevant.
+Print Assumptions C06_doc_list_order_irrelevant.
 Print Assumptions C06_documented_is_served.
 Print Assumptions C06_dependencies_closed.
 Print Assumptions C06_invalid_reference_only_if_undefined.
